@@ -253,22 +253,48 @@ func restorePools(objs []pooledObj) {
 	}
 }
 
-
 // ---------------------------------------------------------------------------------------------
 // release-descent probe
 
 type ownRow struct {
-	Type      string `json:"type"`
-	Tid       int    `json:"tid"`
-	Slot      int    `json:"slot"`
-	Path      string `json:"path"`
-	Route     string `json:"route"`
-	Planted   bool   `json:"planted"`
-	Sentinel  string `json:"sentinel"`
-	SelfPut   int    `json:"self_put"`
-	ChildPut  int    `json:"child_put"`
-	Kept      bool   `json:"kept"`          // the slot still refers to the child after the object was Put
-	ChildDiff bool   `json:"child_written"` // the child was modified although it was not Put
+	Type      string   `json:"type"`
+	Tid       int      `json:"tid"`
+	Slot      int      `json:"slot"`
+	Path      string   `json:"path"`
+	Route     string   `json:"route"`
+	Planted   bool     `json:"planted"`
+	Sentinel  string   `json:"sentinel"`
+	SelfPut   int      `json:"self_put"`
+	ChildPut  int      `json:"child_put"`
+	Kept      bool     `json:"kept"`              // the slot still refers to the child after the object was Put
+	ChildDiff bool     `json:"child_written"`     // the child was modified although it was not Put
+	Through   [][2]int `json:"through,omitempty"` // (type, slot) pairs below a child of a non-pooled type through which the release went on to objects it Put
+}
+
+// a sentinel planted below a non-pooled child: the chain of (type id, slot) pairs leading to it
+type deepSentinel struct {
+	ptr   interface{}
+	chain [][2]int
+}
+
+// plantDeep fills every slot of the non-pooled object pv (and, up to depth, of non-pooled objects below it)
+// with sentinels of their own
+func plantDeep(pv reflect.Value, pooled map[string]bool, depth int, chain [][2]int, out *[]deepSentinel) {
+	t := pv.Type().Elem()
+	for si, sl := range ownSlots(t) {
+		sv, ok := sentinelFor(sl.Type)
+		if !ok {
+			continue
+		}
+		if _, ok := plantAt(pv.Elem(), sl.Steps, sv); !ok {
+			continue
+		}
+		ch := append(append([][2]int{}, chain...), [2]int{ownTypeID[t.Name()], si})
+		*out = append(*out, deepSentinel{sv.Interface(), ch})
+		if depth > 1 && !pooled[sv.Type().Elem().Name()] {
+			plantDeep(sv, pooled, depth-1, ch, out)
+		}
+	}
 }
 
 type ownTypeRow struct {
@@ -385,6 +411,7 @@ func probeOwn() ownTable {
 	defer runtime.GOMAXPROCS(old)
 	var tb ownTable
 	tb.Pools = poolNames()
+	pooled := map[string]bool{}
 	probe := func(t reflect.Type, route string, typedPut func(interface{})) (ownTypeRow, []ownRow) {
 		slots := ownSlots(t)
 		tr := ownTypeRow{Type: t.Name(), Tid: ownTypeID[t.Name()], Route: route, NSlots: len(slots)}
@@ -428,11 +455,52 @@ func probeOwn() ownTable {
 					if r.ChildPut == 0 && dump(sv.Interface()) != before {
 						r.ChildDiff = true
 					}
+					// a child of a non-pooled type: does the release go on through it?
+					if r.ChildPut == 0 && !pooled[sv.Type().Elem().Name()] && len(ownSlots(sv.Type().Elem())) > 0 {
+						drainPools()
+						x2 := reflect.New(t)
+						sv2, _ := sentinelFor(sl.Type)
+						if _, ok2 := plantAt(x2.Elem(), sl.Steps, sv2); ok2 {
+							var deep []deepSentinel
+							plantDeep(sv2, pooled, 3, [][2]int{{r.Tid, si}}, &deep)
+							isDeep := map[interface{}]bool{}
+							for _, d := range deep {
+								isDeep[d.ptr] = true
+							}
+							do(x2)
+							got := drainKnown(func(o interface{}) bool { return isDeep[o] }, 8+len(deep))
+							seenPair := map[[2]int]bool{}
+							for _, d := range deep {
+								if countObj(got, d.ptr) > 0 {
+									for _, pr := range d.chain {
+										if !seenPair[pr] {
+											seenPair[pr] = true
+											r.Through = append(r.Through, pr)
+										}
+									}
+								}
+							}
+						}
+					}
 				}
 			}
 			rows = append(rows, r)
 		}
 		return tr, rows
+	}
+	// which types are put into a pool at all (by the tree route or by a typed Put)
+	for _, t := range nodeTypes {
+		if route := routeOf(t); route != "none" {
+			drainPools()
+			x := reflect.New(t)
+			releaseVia(route, x)
+			if len(drainKnown(func(o interface{}) bool { return o == x.Interface() }, 8)) > 0 {
+				pooled[t.Name()] = true
+			}
+		}
+	}
+	for _, pr := range poolRegs {
+		pooled[pr.Name] = true
 	}
 	for _, t := range nodeTypes {
 		route := routeOf(t)
@@ -510,9 +578,9 @@ type shareGroup struct {
 }
 
 type shareResult struct {
-	Trees   int        `json:"trees"`
-	Objects int        `json:"objects"`
-	Shared  int        `json:"shared_objects"`
+	Trees   int          `json:"trees"`
+	Objects int          `json:"objects"`
+	Shared  int          `json:"shared_objects"`
 	Rows    []shareRow   `json:"rows"`
 	Groups  []shareGroup `json:"groups"`
 	ValInIf int          `json:"value_nodes_in_interfaces"`
